@@ -69,40 +69,116 @@ theorem tenantIDs_exact (s : Bytes) (l : List Bytes) (h : tenantIDs s = .ok l) :
     (∀ x ∈ l, validTenantID x = .ok ()) :=
   PfC20.tenantIDs_exact s l h
 
+/-- ... and it succeeds exactly when every supplied identifier (metadata ignored) is valid:
+multi-tenant resolution is complete, not only sound. -/
+theorem tenantIDs_complete (s : Bytes) :
+    (∃ l, tenantIDs s = .ok l) ↔ ∀ p ∈ splitOn sepTenants s, validTenantID (trimMeta p) = .ok () :=
+  PfC20.tenantIDs_ok_iff s
+
 /-- No string passes one resolver and not the other. -/
 theorem resolvers_agree (s t : Bytes) : tenantID s = .ok t ↔ tenantIDs s = .ok [t] :=
   PfC20.resolvers_agree s t
 
 /-- The metadata-aware parser accepts only valid tenants, agrees with the single-tenant resolver
-and returns well-formed metadata (≤ 64 bytes, only metadata characters, sorted unique keys). -/
+and returns well-formed metadata (≤ 64 bytes, only metadata characters, sorted unique keys).
+One direction only, by design of the code: the metadata-aware parser is STRICTER than the resolvers
+(which ignore metadata without validating it) — see `parseWithMetadata_stricter_witness`. "Ignoring
+attached metadata consistently" is the statement about the two resolvers (`tenantID_sound/complete`,
+`tenantIDs_exact/complete`, `resolvers_agree`, all phrased with `trimMeta`). -/
 theorem parseWithMetadata_sound (s t m : Bytes) (h : parseWithMetadata s = .ok (t, m)) :
     validTenantID t = .ok () ∧ tenantID s = .ok t ∧ m.length ≤ 64 ∧ (∀ c ∈ m, validMetaChar c = true) ∧
     (m ≠ [] → m.head? = some sepMeta ∧ checkSegments [] (metaSegments m) = true) :=
   PfC20.parseWithMetadata_sound s t m h
 
+/-- the converse of `parseWithMetadata_sound` is false: `a:x=1|a:y=2` (same tenant, different
+metadata) and `b:@@` (malformed metadata) resolve with the single-tenant resolver but are rejected
+by the metadata-aware parser. -/
+theorem parseWithMetadata_stricter_witness :
+    tenantID [97, 58, 120, 61, 49, 124, 97, 58, 121, 61, 50] = .ok [97] ∧
+    parseWithMetadata [97, 58, 120, 61, 49, 124, 97, 58, 121, 61, 50] = .error .tooMany ∧
+    tenantID [98, 58, 64, 64] = .ok [98] ∧ parseWithMetadata [98, 58, 64, 64] = .error .metaBadChar := by
+  decide
+
 /-! ### Transport. -/
 
-/-- Any chain of hops through HTTP headers and gRPC metadata, of any length and with any
-pre-existing header values, delivers the injected identifier unchanged or fails. -/
-theorem transport_identity (id : Bytes) (hops : List Hop) (i : Nat) (c : Ctx)
-    (h : chain (some id) hops i = .ok c) : c = some id :=
-  PfC20.transport_identity id hops i c h
+/-- Any chain of hops through HTTP headers and gRPC metadata, of any length, with any pre-existing
+header values and whatever the receiving sides' contexts already hold: if it succeeds, the context
+at the end yields the identifier the first context held, unchanged. -/
+theorem transport_identity (c : Ctx) (id : Bytes) (hc : extractOrgID c = .ok id) (hops : List Hop) (i : Nat) (c' : Ctx)
+    (h : chain c hops i = .ok c') : extractOrgID c' = .ok id :=
+  PfC20.transport_identity c id hc hops i c' h
 
-/-- A request without an identifier is rejected at the first hop, never given a default. -/
-theorem no_default (h : Hop) : hop none h = .error .noOrgID := by
-  cases h <;> rfl
+/-- ... and it DOES arrive: a chain whose carriers hold no conflicting value (no pre-existing header
+/ metadata value, or the same one) succeeds and delivers the identifier. The identifier must be
+non-empty to travel in an HTTP header (`hopClean`; see `empty_identifier_witness`). -/
+theorem transport_chain_succeeds (c : Ctx) (id : Bytes) (hc : extractOrgID c = .ok id) (hops : List Hop) (i : Nat)
+    (hclean : ∀ h ∈ hops, hopClean id h = true) :
+    ∃ c', chain c hops i = .ok c' ∧ extractOrgID c' = .ok id := by
+  obtain ⟨c', h⟩ := (PfC20.transport_succeeds_iff c id hc hops i).2 hclean
+  exact ⟨c', h, PfC20.transport_identity c id hc hops i c' h⟩
 
-theorem no_default_chain (h : Hop) (hs : List Hop) (i : Nat) :
-    chain none (h :: hs) i = .error (.noOrgID, i) := by
-  cases h <;> rfl
+/-- Exactly: a chain succeeds if and only if every carrier is clean; a failure is reported at the
+first hop whose carrier holds a conflicting value (or, for an empty identifier, the first HTTP hop). -/
+theorem transport_succeeds_iff (c : Ctx) (id : Bytes) (hc : extractOrgID c = .ok id) (hops : List Hop) (i : Nat) :
+    (∃ c', chain c hops i = .ok c') ↔ ∀ h ∈ hops, hopClean id h = true :=
+  PfC20.transport_succeeds_iff c id hc hops i
 
-/-- An empty header value is never accepted by HTTP extraction. -/
-theorem http_rejects_empty (recv : Ctx) : extractHTTP recv [] = .error .noOrgID := rfl
+theorem transport_fails_at_first_conflict (c : Ctx) (id : Bytes) (hc : extractOrgID c = .ok id) (hops : List Hop) (i : Nat)
+    (e : Err) (n : Nat) (h : chain c hops i = .error (e, n)) :
+    ∃ j, n = i + j ∧ (∀ h ∈ hops.take j, hopClean id h = true) ∧ ∃ hp, hops[j]? = some hp ∧ hopClean id hp = false :=
+  PfC20.transport_fails_at c id hc hops i e n h
 
-/-- whatever identifier the receiving side's context already holds never replaces (or stands in
-for) the transported one -/
-theorem extraction_ignores_receiver (recv recv' : Ctx) (h : Bytes) (v : List Bytes) :
-    extractHTTP recv h = extractHTTP recv' h ∧ extractGRPC recv v = extractGRPC recv' v := ⟨rfl, rfl⟩
+/-- A request whose context holds no identifier is rejected at the first hop, never given a default
+(sending side: `Inject…` fails). -/
+theorem no_default (c : Ctx) (hc : c.value .org = none) (h : Hop) : hop c h = .error .noOrgID :=
+  PfC20.no_default c hc h
+
+theorem no_default_chain (c : Ctx) (hc : c.value .org = none) (h : Hop) (hs : List Hop) (i : Nat) :
+    chain c (h :: hs) i = .error (.noOrgID, i) := by
+  simp [chain, PfC20.no_default c hc h]
+
+/-- Receiving side: an absent or empty header, and absent or multiple metadata values, are rejected
+whatever the receiving context already holds (a stale identifier there is not used as a default). -/
+theorem receiver_rejects_missing (recv : Ctx) (a b : Bytes) (l : List Bytes) :
+    extractHTTP recv [] = .error .noOrgID ∧ extractGRPC recv [] = .error .noOrgID ∧
+    extractGRPC recv (a :: b :: l) = .error .noOrgID := ⟨rfl, rfl, rfl⟩
+
+/-- The resolvers on a context without an identifier: `ErrNoOrgID`, no default tenant. -/
+theorem resolver_rejects_missing (c : Ctx) (hc : c.value .org = none) :
+    resolveTenantID c = .error .noOrgID ∧ resolveTenantIDs c = .error .noOrgID ∧
+    resolveWithMetadata c = .error .noOrgID := by
+  simp [resolveTenantID, resolveTenantIDs, resolveWithMetadata, extractOrgID, hc]
+
+/-- The context produced by an extraction is DERIVED from the receiving request's context: the
+extracted identifier is bound on top of it, so it overrides whatever identifier the receiver held
+(for any receiving context, e.g. one carrying a stale identifier), while the receiver's other values
+(here: the user id) stay visible. -/
+theorem extraction_overrides_receiver (recv : Ctx) (h x : Bytes) (hne : h ≠ []) :
+    (∃ c, extractHTTP recv h = .ok c ∧ extractOrgID c = .ok h ∧ c.value .user = recv.value .user) ∧
+    (∃ c, extractGRPC recv [x] = .ok c ∧ extractOrgID c = .ok x ∧ c.value .user = recv.value .user) :=
+  ⟨⟨injectOrgID recv h, by simp [extractHTTP, hne], PfC20.extract_inject recv h, PfC20.value_inject_user recv h⟩,
+   ⟨injectOrgID recv x, rfl, PfC20.extract_inject recv x, PfC20.value_inject_user recv x⟩⟩
+
+/-- a receiver holding the stale identifier `x` and user `u`: after extraction of `a` the context
+yields `a`, and still the user `u`. -/
+example : (extractHTTP [(.user, [117]), (.org, [120])] [97]).map (fun c => (extractOrgID c, c.value .user)) =
+    .ok (.ok [97], some [117]) := by decide
+
+/-! ### The empty identifier -/
+
+/-- What the code does with an EMPTY identifier (documented, not excluded by the property text,
+which constrains characters, length and the dot names only; `tenant/resolver_test.go` lists the
+case "empty" with result `[""]`): the validator and both resolvers accept it (`a|` resolves to the
+two tenants `""` and `a`); it passes a gRPC hop unchanged (one metadata value, empty); it cannot
+pass an HTTP hop — an empty header is an absent one, so the request counts as one without an
+identifier and is rejected, not defaulted. Non-emptiness of accepted identifiers is therefore NOT
+guaranteed by this library. -/
+theorem empty_identifier_witness :
+    validTenantID [] = .ok () ∧ tenantID [] = .ok [] ∧ tenantIDs [97, 124] = .ok [[], [97]] ∧
+    (chain [(.org, [])] [.grpc none []] 0).map extractOrgID = .ok (.ok []) ∧
+    chain [(.org, [])] [.http [] []] 0 = .error (.noOrgID, 0) ∧
+    hopClean [] (.grpc none []) = true ∧ hopClean [] (.http [] []) = false := by
+  decide
 
 /-! ### Non-vacuity: the hypotheses above are met by concrete, non-trivial inputs. -/
 
@@ -111,7 +187,10 @@ example : tenantID [116, 58, 97, 124, 116] = .ok [116] := by decide
 example : tenantIDs [98, 124, 97, 58, 107, 124, 98] = .ok [[97], [98]] := by decide
 -- "t:a=b:c=d"
 example : parseWithMetadata [116, 58, 97, 61, 98, 58, 99, 61, 100] = .ok ([116], [58, 97, 61, 98, 58, 99, 61, 100]) := by decide
-example : chain (some [97]) [.http [] none, .grpc none (some [120]), .http [97] (some [120]), .grpc (some [[97]]) none] 0 = .ok (some [97]) := by decide
-example : chain (some [97]) [.http [98] none] 0 = .error (.differentOrg, 0) := by decide
+-- a clean chain with stale receivers delivers "a"; the hypotheses of `transport_chain_succeeds` hold on it
+example : (chain [(.org, [97])] [.http [] [], .grpc none [(.org, [120])], .http [97] [(.org, [120])], .grpc (some [[97]]) []] 0).map extractOrgID
+    = .ok (.ok [97]) := by decide
+example : ∀ h ∈ [Hop.http [] [], .grpc none [(.org, [120])], .http [97] [(.org, [120])], .grpc (some [[97]]) []], hopClean [97] h = true := by decide
+example : chain [(.org, [97])] [.http [98] []] 0 = .error (.differentOrg, 0) := by decide
 
 end PC20
